@@ -209,7 +209,7 @@ func runConfig(t *testing.T, rep *vh.Report, env vh.Env, ci, perConfig, only int
 	signIn := ps.Auth.URL() + "/" + ps.Slug + "/sign_in"
 
 	// one reference response per upstream teaches the monitor what a backend marker looks like
-	cells := nCookie * nGates * 3 * 3 * len(answerNames) * 2 * len(methods) * 2
+	cells := 2 * nCookie * nGates * 3 * 3 * len(answerNames) * 2 * len(methods) * 2
 	const stride = 1000003 // prime, coprime with cells
 	lo, hi := ci*perConfig, (ci+1)*perConfig
 	vh.ForEach(hi-lo, 0, func() int {
@@ -233,6 +233,17 @@ func runConfig(t *testing.T, rep *vh.Report, env vh.Env, ci, perConfig, only int
 		endpoint := dim(3)
 		gates := dim(nGates)
 		cookie := dim(nCookie)
+		memberAsOfLastCheck := dim(2) == 0
+		// weight the gate vector towards single and double failures: a conjunct that alone decides the
+		// outcome is where a missing check shows (a uniformly drawn vector almost always has another
+		// failing conjunct that masks it)
+		switch {
+		case gates < 24:
+			gates = 1 << uint(gates%6)
+		case gates < 40:
+			a, b := gates%6, (gates/6+1+gates%6)%6
+			gates = 1<<uint(a) | 1<<uint(b)
+		}
 		// weight: a third of all cases are fully good sessions / lightly gated ones
 		if cookie == ckGood {
 			gates = gates & (gRefreshDue | gValidDue)
@@ -296,7 +307,9 @@ func runConfig(t *testing.T, rep *vh.Report, env vh.Env, ci, perConfig, only int
 
 		// cookie
 		sess := ps.Session(u.host, email, nil)
-		if len(u.rules.Groups) > 0 {
+		// group membership "as of the last check" is what the cookie records
+		inGroupCookie := memberAsOfLastCheck
+		if len(u.rules.Groups) > 0 && inGroupCookie {
 			sess.Groups = []string{u.rules.Groups[0]}
 		}
 		due := "none"
@@ -406,13 +419,18 @@ func runConfig(t *testing.T, rep *vh.Report, env vh.Env, ci, perConfig, only int
 		// ground truth
 		groupsCfg := len(u.rules.Groups) > 0
 		checksOK := true
-		groupFact := groupsCfg // as of last check
+		groupFact := groupsCfg && inGroupCookie // as of last check
 		if due != "none" {
 			checksOK = primaryOK && (!groupsCfg || (profileOK && inGroup))
 			groupFact = groupsCfg && profileOK && inGroup
 		}
 		ruleOK := emailOK || groupFact
 		authorised := genuine && gates&(gSlugBad|gHostBad|gLifetime) == 0 && checksOK && ruleOK
+		// Don't-care zone: an upstream gated by groups ONLY, no check due, cookie recording no membership.
+		// The proxy re-checks groups at revalidation time only, and it cannot have issued such a cookie
+		// itself for this upstream; the statement's "as of which check" is not settled there. With an
+		// e-mail rule configured next to the groups the cell IS judged (the user matches no rule at all).
+		dontCare := genuine && due == "none" && groupsCfg && !inGroupCookie && len(u.rules.Addresses) == 0 && len(u.rules.Domains) == 0
 
 		rq := sut.Req{Method: method, Host: u.host, Target: target, Cookies: cookies}
 		if xhr {
@@ -438,7 +456,7 @@ func runConfig(t *testing.T, rep *vh.Report, env vh.Env, ci, perConfig, only int
 				return
 			}
 		}
-		desc := fmt.Sprintf("%s|%v|%s|%s|%s", cookieNames[cookie], kc.Gates, endpointNames[endpoint], clsName, method)
+		desc := fmt.Sprintf("%s|%v|%s|%s|%s|member=%v", cookieNames[cookie], kc.Gates, endpointNames[endpoint], clsName, method, inGroupCookie)
 		if due != "none" && genuine && gates&(gSlugBad|gHostBad|gLifetime) == 0 {
 			desc += "|" + due + "|" + answerNames[answer] + "|" + kc.Site
 		}
@@ -490,6 +508,8 @@ func runConfig(t *testing.T, rep *vh.Report, env vh.Env, ci, perConfig, only int
 		marker := strings.Contains(string(rs.Body), "UPSTREAM-CONTENT-")
 		if len(hits) > 0 || marker {
 			switch {
+			case dontCare:
+				rep.Count("dont_care_groups_only_no_check_due_no_recorded_membership", 1)
 			case authorised:
 				rep.Count("backend_hits_authorised", 1)
 			case skipOK:
@@ -505,7 +525,9 @@ func runConfig(t *testing.T, rep *vh.Report, env vh.Env, ci, perConfig, only int
 			rep.Count("refused_with_genuine_cookie", 1)
 		}
 		if endpoint == 1 && rs.Status == 202 {
-			if !authorised {
+			if dontCare {
+				rep.Count("dont_care_groups_only_no_check_due_no_recorded_membership", 1)
+			} else if !authorised {
 				rep.Violate("c01", i, "auth-only-202-unauthorised "+sigBase, "/oauth2/auth answered 202 without an authorised session", kc)
 			} else {
 				rep.Count("auth_only_202_authorised", 1)
